@@ -249,6 +249,19 @@ def check_group(c, st):
     if gb != ('ok', want_b) or (gb[0] == 'ok' and list(gb[1]) != list(want_b)):
         return ('bucketize:key=%s%s' % (kn.split(':')[0], ':keylist' if isinstance(bkey, list) else ''),
                 'bucketize(%r, key=%s, vt=%r, kf=%r) = %r want %r' % (data, kn, bool(vt), bool(kf), gb, want_b))
+    def same(a, b):
+        # 1, 1.0 and True are equal: compare representation too so a swapped element is noticed
+        return a == b and repr(a) == repr(b)
+    if c.get('mixed'):
+        if not (same(gu, ('ok', want_u)) and same(gr, ('ok', want_r)) and same(gg, ('ok', want_g)) and same(gb, ('ok', want_b))):
+            return ('group:equal-but-distinct-values', 'unique/redundant/bucketize(%r) returned an equal but different '
+                    'element: %r / %r / %r / %r' % (data, gu, gr, gg, gb))
+        gp2 = outcome(lambda: iu.partition(mk(kind, data)))
+        want_p2 = ([x for x in data if x], [x for x in data if not x])
+        if not same(gp2, ('ok', want_p2)):
+            return ('partition', 'partition(%r) = %r want %r' % (data, gp2, want_p2))
+        st.count('group_mixed')
+        return None
     pk = (lambda x: x % 2 == 1)
     gp = outcome(lambda: iu.partition(mk(kind, data), pk))
     want_p = ([x for x in data if pk(x)], [x for x in data if not pk(x)])
@@ -366,6 +379,13 @@ def gen(r):
                 'value': r.choice(ALPHA), 'default': r.random() < 0.5}
     if fn == 'group':
         n = r.choice([0, 1, 2, 3, 5, 8, 15])
+        if r.random() < 0.3:
+            # values that are falsy, None, or equal-but-distinct (1 == 1.0 == True)
+            pool = [None, None, 0, '', 'a', 1, 1.0, True, False, 2, 'b']
+            return {'fn': fn, 'kind': r.choice(['list', 'tuple', 'iter', 'gen']),
+                    'data': [r.choice(pool) for _ in range(n)], 'mixed': True,
+                    'key': r.choice(['none', 'attr:missing']), 'vt': False, 'kf': r.random() < 0.4,
+                    'keylist': r.random() < 0.3}
         return {'fn': fn, 'kind': r.choice(['list', 'tuple', 'iter', 'gen']),
                 'data': [r.randint(0, 6) for _ in range(n)],
                 'key': r.choice(list(KEYFNS)), 'vt': r.random() < 0.4, 'kf': r.random() < 0.4,
